@@ -496,6 +496,21 @@ def _solve_forked(jobs, timeout_ms, use_cvc5, cvc5_s=None, par=None):
     return results
 
 
+def _solve_portfolio(still, timeout_ms):
+    """Full budget: the default configuration (with cvc5 behind it) plus PORTFOLIO further z3 seeds per open obligation, in
+    parallel; a proof by any member discharges the obligation (z3's search on these queries is seed-sensitive, the verdict is not)."""
+    jobs3 = [(ctx, ob, v) for ctx, ob in still for v in ([None] + list(range(1, PORTFOLIO + 1)))]
+    res3all = _solve_forked(jobs3, timeout_ms, use_cvc5=True, par=2 * (PORTFOLIO + 1)) if jobs3 else []
+    res3 = []
+    for k in range(len(still)):
+        grp = res3all[k * (PORTFOLIO + 1):(k + 1) * (PORTFOLIO + 1)]
+        best = next((r for r in grp if r["status"] == "proved"), None) or next((r for r in grp if r["status"] == "refuted"), None) or grp[0]
+        best = dict(best)
+        best["secs"] = max(r["secs"] for r in grp)
+        res3.append(best)
+    return res3
+
+
 def run_unit(name, repo_root=None, want_canaries=True, timeout_ms=None):
     """Returns a picklable dict with per-obligation verdicts."""
     t0 = time.time()
@@ -554,7 +569,16 @@ def run_unit(name, repo_root=None, want_canaries=True, timeout_ms=None):
             open_jobs.append((ctx, ob, r))
     # a failed side condition of a lemma instance invalidates what was derived from it: re-examine every
     # clause of the unit on concrete instances (where no lemma is needed)
-    side_failed = [ob.name for _, ob, r in open_jobs if ob.kind == "side" or ob.name.startswith("loopinv.") or getattr(ob, "assumed_after", False)]
+    is_side = lambda ob: ob.kind == "side" or ob.name.startswith("loopinv.") or getattr(ob, "assumed_after", False)
+    # side conditions / invariants / lemmas left open by the short budget get the full budget at once: only what is still
+    # open afterwards taints its dependents (and triggers the expensive re-examination on concrete instances)
+    side_open = [(c, ob) for c, ob, r in open_jobs if is_side(ob)]
+    if side_open:
+        for (c, ob), r in zip(side_open, _solve_portfolio(side_open, timeout_ms or vc.Z3_TIMEOUT_MS)):
+            if r["status"] == "proved":
+                merge(ob, r)
+                open_jobs = [j for j in open_jobs if j[1] is not ob]
+    side_failed = [ob.name for _, ob, r in open_jobs if is_side(ob)]
     if side_failed:
         for (ctx_, ob), r in zip(jobs, res1):
             if r["status"] == "proved" and ob.kind in ("post", "assert") and ob.name in seen:
@@ -577,17 +601,7 @@ def run_unit(name, repo_root=None, want_canaries=True, timeout_ms=None):
                                "secs": 0.0, "backend": "z3", "note": rp.get("note", ""), "reason": "counterexample with small concrete dimensions (clause of the unrolled loop)", "replay": rp}
     # phase 3: full budget (z3 then cvc5) for what is still open and has no counterexample
     still = [(ctx, ob) for ctx, ob, _ in open_jobs if ob.name not in found]
-    # portfolio: the default configuration (with cvc5 behind it) plus PORTFOLIO further z3 seeds per open obligation, in parallel;
-    # a proof by any member discharges the obligation (z3's search on these queries is seed-sensitive, the verdict is not)
-    jobs3 = [(ctx, ob, v) for ctx, ob in still for v in ([None] + list(range(1, PORTFOLIO + 1)))]
-    res3all = _solve_forked(jobs3, timeout_ms or vc.Z3_TIMEOUT_MS, use_cvc5=True, par=2 * (PORTFOLIO + 1)) if jobs3 else []
-    res3 = []
-    for k in range(len(still)):
-        grp = res3all[k * (PORTFOLIO + 1):(k + 1) * (PORTFOLIO + 1)]
-        best = next((r for r in grp if r["status"] == "proved"), None) or next((r for r in grp if r["status"] == "refuted"), None) or grp[0]
-        best = dict(best)
-        best["secs"] = max(r["secs"] for r in grp)
-        res3.append(best)
+    res3 = _solve_portfolio(still, timeout_ms or vc.Z3_TIMEOUT_MS)
     for n in open_names:
         if seen.get(n) is None:
             del seen[n]
